@@ -21,10 +21,44 @@ pub struct Workload {
     /// search fails ("open" or "read"); the traversed files that follow on the same worker
     /// must still be treated as traversed files.
     pub failing_explicit: Option<&'static str>,
+    /// -m N -A k, with the first NUL beyond 64 KiB inside the k lines after the N-th match.
+    pub limit: Option<(usize, usize)>,
 }
 
 pub fn gen_workload(sub: u64) -> Workload {
     let mut rng = Rng::new(sub);
+    if rng.chance(1, 12) {
+        // a match limit whose trailing context reaches into binary data that lies beyond the
+        // part of the file examined up front
+        let mut c: Vec<u8> = vec![];
+        let mut n = 0;
+        while c.len() < 66_000 + rng.below(20_000) {
+            if rng.chance(1, 60) {
+                c.extend_from_slice(b"a foo line in the text part\n");
+                n += 1;
+            } else {
+                c.extend_from_slice(b"filler filler filler filler filler filler filler filler\n");
+            }
+        }
+        c.extend_from_slice(b"the foo line whose context is binary\n");
+        n += 1;
+        let k = 1 + rng.below(3);
+        let at = c.len() + 9;
+        c.extend_from_slice(b"trailing \0 bytes\nfoo again \0 here\nmore\nfoo later\n");
+        let corpus = Corpus { files: vec![("big.txt".into(), c)], links: vec![] };
+        return Workload {
+            corpus,
+            explicit: rng.chance(3, 4),
+            binary_flag: ["", "", "--binary"][rng.below(3)],
+            mmap: if rng.chance(2, 3) { "--mmap" } else { "--no-mmap" },
+            frag: false,
+            mode: "limit-context",
+            placements: vec![format!("big.txt:in-the-context-after-the-limit@{at}")],
+            via_stdin: false,
+            failing_explicit: None,
+            limit: Some((n, k)),
+        };
+    }
     let big = rng.chance(1, 6);
     let mut corpus = gen_corpus(&mut rng, 5, big);
     let mut placements = vec![];
@@ -75,7 +109,7 @@ pub fn gen_workload(sub: u64) -> Workload {
     let explicit = via_stdin || rng.chance(1, 2);
     let mmap = if rng.chance(1, 2) { "--mmap" } else { "--no-mmap" };
     let failing_explicit = if !explicit && rng.chance(1, 4) { Some(if mmap == "--no-mmap" && rng.chance(1, 2) { "read" } else { "open" }) } else { None };
-    Workload { corpus, explicit, binary_flag, mmap, frag: rng.chance(1, 2) && !via_stdin, mode, placements, via_stdin, failing_explicit }
+    Workload { corpus, explicit, binary_flag, mmap, frag: rng.chance(1, 2) && !via_stdin, mode, placements, via_stdin, failing_explicit, limit: None }
 }
 
 /// Model lines "w/path:N:text" for the literal pattern foo, detection disabled.
@@ -114,6 +148,10 @@ pub fn run_workload(sub: u64, acc: &mut Acc, ctx: &Ctx, _thorough: bool) {
         "list" => args.push("-l".into()),
         "context" => args.extend(["-n".into(), "--no-heading".into(), "--with-filename".into(), "-C1".into()]),
         "multiline" => args.extend(["-n".into(), "--no-heading".into(), "--with-filename".into(), "-U".into()]),
+        "limit-context" => {
+            let (n, k) = w.limit.unwrap();
+            args.extend(["-n".into(), "--no-heading".into(), "--with-filename".into(), format!("-m{n}"), format!("-A{k}")]);
+        }
         "swarm" => {
             // any combination of output-shaping flags: whatever they do, no NUL byte of a
             // searched file may reach stdout (only that claim is judged in this mode)
